@@ -21,6 +21,7 @@ BIN = {"add": ("Qcplus", operator.add, operator.add), "sub": ("Qcminus", operato
        "ge": ("(fun x y => ofb (Vleb y x))", lambda a, b: a.ge(b), lambda x, y: Fraction(int(x >= y))),
        "eq": ("(fun x y => ofb (Veqb x y))", lambda a, b: a.eq(b), lambda x, y: Fraction(int(x == y)))}
 UN = {"neg": ("Qcopp", operator.neg, operator.neg), "abs": ("Vabs", abs, abs),
+      "inv": ("(fun x => Qcminus (Qcopp x) (qc 1 1))", operator.invert, lambda x: -x - 1),
       "is_even": ("(fun x => ofb (p_even x))", lambda a: a.is_even(), lambda x: Fraction(int(x % 2 == 0)))}
 PRED = {"even": ("p_even", lambda v: v % 2 == 0), "odd": ("p_odd", lambda v: v % 2 == 1),
         "gt2": ("(p_gt (qc 2 1))", lambda v: v > 2)}
@@ -334,7 +335,11 @@ def gen_tree(rng, depth):
     if k == "bin":
         return ["bin", rng.choice(list(BIN)), sub(), sub()]
     if k == "un":
-        return ["un", rng.choice(list(UN)), sub()]
+        op = rng.choice(list(UN))
+        if rng.random() < 0.3:
+            # the same operator twice over a source with several outcomes: each node sums its source first
+            return ["un", op, ["un", op, rng.choice([["repeat", 2, gen_leaf(rng)], ["pool", [gen_leaf(rng), gen_leaf(rng)]], sub()])]]
+        return ["un", op, sub()]
     if k == "select":
         which = rng.choice([[{"i": 0}], [{"i": -1}], [{"s": [None, 1, None]}], [{"s": [-2, None, None]}],
                             [{"s": [None, None, -1]}], [{"i": 0}, {"i": 0}], [{"s": [1, None, None]}], [{"i": 1}], [{"i": -1}, {"i": 0}],
